@@ -619,12 +619,7 @@ impl<C: CrcCalculator> Encapsulator<C> {
         if protocol_type < MAX_MANDATORY_VAL_PTYPE {
             // the mandatory header extension replaces the protocol type
             // checking if the last extension id corresponds to this protocol type
-            if extensions.last().unwrap().id() != protocol_type
-                && matches!(
-                    extensions.last().unwrap().data(),
-                    ExtensionData::MandatoryData(..)
-                )
-            {
+            if extensions.last().unwrap().id() != protocol_type {
                 return Err(EncapError::ErrorFinalMandatoryExtensionHeader);
             }
             is_there_final_mandatory_extension = true;
